@@ -160,6 +160,8 @@ int probe_id(const char *name);         /* registers on first use */
         if (_pid < 0) _pid = probe_id(name); g_probe[_pid]++; } while (0)
 /* probe with a run-time name (interned by content) */
 void probe_dyn(const char *name);
+void sim_watchdog(int seconds);          /* CPU-time budget of the current run: 3*seconds (default 20) */
+extern uint64_t g_gen_index;
 #define PROBE_N(name, n) do { static int _pid = -1; \
         if (_pid < 0) _pid = probe_id(name); g_probe[_pid] += (n); } while (0)
 
@@ -195,8 +197,11 @@ extern void (*g_abort_in_fiber)(int kind);
  * Afterwards g_aborted says whether it aborted. All state the caller needs
  * after a trapped abort must live in static storage.
  */
+/* work meter (variant "work": the library objects are compiled with -fsanitize-coverage=trace-pc): the number of basic
+ * blocks of library code executed, a deterministic, machine-independent measure of how much an operation did */
+extern uint64_t g_work, g_work_at_try;
 #define TRY(stmt) do { \
-        g_aborted = 0; g_trap_armed = 1; simheap_op_begin(); \
+        g_aborted = 0; g_trap_armed = 1; simheap_op_begin(); g_work_at_try = g_work; \
         if (_setjmp(g_trap_jmp) == 0) { g_inlib = 1; stmt; } \
         g_inlib = 0; g_trap_armed = 0; simheap_op_end(); \
     } while (0)
